@@ -162,13 +162,16 @@ PROPS['C02'].update({
 })
 PROPS['C07'].update({
     'level': 'other',
-    'units': ['pwl_schema', 'aff_algebra'],
-    'technique': 'Verus contracts on the arithmetic schemas (impl_op_schema! expanded) and the AffFunc operators + bounded replay (bc ops) of the lifted operators on trees',
+    'units': ['pwl_schema', 'aff_algebra', 'pwl_ops_tree'],
+    'technique': 'Verus contracts on the arithmetic schemas (impl_op_schema! expanded), the AffFunc operators, and the in-place tree operators `AffTree op &AffTree` through generic_composition_inplace instantiated with each arithmetic schema (structure for every answer of the LP oracle) + bounded replay (bc ops) of the point-wise law on trees',
     'level_text': ('Mixed. PROVED modulo "f64 = reals" (Verus): for Add/Sub/Mul/Div the schema keeps decisions unchanged and builds the terminal as context op original, coefficient-wise and in '
-                   'that operand order; the AffFunc operators are coefficient-wise in the borrowed and the owned variant (and + / - / unary minus point-wise). '
-                   'BOUNDED (bc ops): the lifted law on trees for all four operators, every ownership variant, negation and the tree/affine mixed forms through generic_composition_inplace and unary_op_*.'),
+                   'that operand order; the AffFunc operators are coefficient-wise in the borrowed and the owned variant (and + / - / unary minus point-wise); '
+                   'the in-place operators `tree + &tree`, `-`, `*`, `/` (unit pwl_ops_tree: the real loop nest of generic_composition_inplace once per arithmetic schema) return a well-formed tree over the same input space whose terminals all have the common output dimension and whose '
+                   'every terminal is a terminal of the left operand combined with one of the right operand by that schema - for EVERY answer pattern of the LP-based feasibility oracle (is_edge_feasible arbitrary except its root shortcut) - and cannot panic (`/` under its documented precondition: no zero coefficient in the divisor terminals). '
+                   'BOUNDED (bc ops): the point-wise law h(x) = a(x) op b(x) itself (it depends on the soundness of the LP oracle), the other ownership variants (forwarding impls), negation and the tree/affine mixed forms (closures over terminals_mut). The lifted law on trees for all four operators, every ownership variant, negation and the tree/affine mixed forms through generic_composition_inplace and unary_op_*.'),
     'design_ref': 'DESIGN.md §4 C07',
-    'assumptions': ASSUME_COMMON + ASSUME_ND + ASSUME_BC + ['rule T1 as for C02'],
+    'assumptions': ASSUME_COMMON + ASSUME_ND + ASSUME_BC + ['rule T1 as for C02',
+        'unit pwl_ops_tree: rule M1 (the body of impl_op_schema! is verified once per operator with $trt / $op / $name substituted), rule G1 (generic_composition_inplace instantiated with that schema and NoOpVis), `mut self` is written `let mut __s = self` (Verus lacks `mut self`), the schema explore (generate_infeasible!("infeasible")) is the call rhs.is_edge_feasible(parent, child) with the ASSUMED contract `parent == 0 ==> true`; a ghost argument carries the common output dimension; remove_child without its arena-size precondition as in C04'],
 })
 
 ASSUME_PWL = [
@@ -242,14 +245,14 @@ PROPS['C08'].update({
 
 PROPS['C04'].update({
     'level': 'other',
-    'units': ['pwl_compose', 'pwl_compose_pruned', 'pwl_reduce', 'pwl_tree', 'pwl_schemas'],
+    'units': ['pwl_compose', 'pwl_compose_pruned', 'pwl_ops_tree', 'pwl_reduce', 'pwl_tree', 'pwl_schemas'],
     'technique': 'Verus contracts: every un-pruned transformation under contract (compose::<false,false> / generic_composition_inplace, reduce, apply_func, add_child_node, update_node, from_aff) preserves Tree::wf and the shape invariant aff_shape_ok as part of its postcondition, and its panics are proved unreachable; bounded replay of operation histories (bc histories) for the LP-dependent transformations and the history quantifier',
     'level_text': ('Mixed. PROVED (Verus, all trees, all arguments satisfying the stated dimension preconditions): the schema constructors (six activations, argmax, class_characterization: well-formed, one common terminal output dimension), compose::<false,false>, reduce, apply_func / apply_func_at_node, AffTree::add_child_node, update_node and from_aff '
                    'each return a tree with Tree::wf (links mirrored, leaf flag <=> no children, single root, acyclic) and aff_shape_ok (every node function has the tree input dimension, every decision has 1..15 rows with 2^rows <= K), '
                    'and none of their unwrap / assert / index panics is reachable; since each postcondition re-establishes the precondition of the next operation, any history over these operations stays well-formed. '
                    'Also PROVED (unit pwl_compose_pruned): compose::<true,false> / generic_composition_inplace with the pruning schema keeps Tree::wf, aff_shape_ok and one common terminal output dimension and cannot panic FOR EVERY ANSWER PATTERN of the LP-based feasibility oracle '
                    '(is_edge_feasible is left arbitrary except for its root shortcut; ghost map new node -> copied lhs node, the create / skip / keep-last / forward bookkeeping of the children loop is part of the invariant; a pruned child is shown to leave the arena exactly as it was). '
-                   'NOT under contract: infeasible_elimination (LP + iterator that mutates the tree underneath), the arithmetic operators. '
+                   'The same for the four in-place tree operators + - * / (unit pwl_ops_tree, see C07). NOT under contract: infeasible_elimination (LP + iterator that mutates the tree underneath), negation and the tree/affine mixed operators (closures over terminals_mut). '
                    'BOUNDED (bc histories): random operation histories over all transformations from every constructor, well-formedness (incl. common output dimension) and panic freedom after every step.'),
     'design_ref': 'DESIGN.md §4 C04',
     'assumptions': ASSUME_COMMON + ASSUME_SLAB + ASSUME_ND + ASSUME_PWL + ASSUME_BC + ['see C02 (unit pwl_compose) and C08 (unit pwl_reduce) for the rewrite rules and trusted helpers of those units',
